@@ -37,6 +37,7 @@ import DdsModel.Theorems.C20
 import DdsModel.Drv.C01
 import DdsModel.Proofs.TrapBc
 import DdsModel.Proofs.TrapBc7
+import DdsModel.Proofs.TrapBc6
 namespace Dds.C01
 open Dds Dds.Stream Dds.Reader
 
@@ -681,6 +682,49 @@ example :
      some [[107, 82, 198, 120]], some [[155, 76, 173, 72]], some [[52, 154, 88, 34]], some [[125, 207, 36, 101]],
      some [[0, 0, 0, 0]]] ∧
     TrapBc7.lerpT 255 255 300 = none ∧ TrapBc7.getIndexT ⟨0, 5, 31⟩ 15 = none ∧ TrapBc7.promoteT 3 8 = none := by
+  decide +kernel
+
+/-- **BC6H body, whole block** (`src/decode/bc6.rs` in full, `consume_bits_32` / `consume_bits_rev`, the `Indexes`
+of BC7, and the six decoders `bc6_{s,u}_{u8,u16,f32}` of `bc.rs` with `fp16::*` / `bc6h_uf16::*` / `two_powi`).
+For EVERY block, both formats (`signed = true`: `BC6H_SF16`), all three precisions (0 = U8, 1 = U16, 2 = F32):
+* header: the `unreachable!()` arms of `extract_mode` are not reached, every `consume!` of the ten two-region
+  sequences and the reads of the four one-region modes satisfy `0 < count <= 31` resp. `count <= 8`, the `u8`
+  subtractions `20 - a0_bit_count`, `a0_bit_count - 10`, `8 - count`, `32 - bit_count` do not underflow,
+  `partition < 32` indexes the 64-entry table, the fix-up index satisfies `0 < p2_fixup`;
+* endpoints: all three `debug_assert!`s of `sign_extend` hold at each of its calls (in particular
+  `x & !((1 << bit_count) - 1) == 0`: the raw fields are below `2^width` by `C03x.bc6_extract_eq_fields`, the
+  transformed ones are masked), `(1 << a_bit_count) - 1` does not overflow;
+* `unquantize`, the interpolation `a * (64 - w) + b * w + 32` and `finish_unquantize`: no `i32` operation
+  overflows (`+`, `*`, unary `-`), every shift amount is below 32;
+* `palette[index]` (16 entries) and `palette[subset_index][index]` (2 × 8) are in range;
+* conversion: for `BC6H_UF16` every decoded half is `< 0x7C00`, so both `debug_assert!`s of `bc6h_uf16::{n8,n16,f32}`
+  hold; `exp as i8 - 25` stays in `i8`, `two_powi`'s `debug_assert!(-126 <= exponent)` holds;
+and the result is the wrapping model's block `Bc6.decodeBlock` with the model's conversion applied per channel.
+(The mirror traps on `i32 <<` only for amounts ≥ 32, as Rust does; `C03x.bc6_no_i32_overflow` is the stronger
+statement that those shifts lose no bits either.) -/
+theorem bc6_body_trapfree (signed : Bool) (b : Nat) :
+    TrapBc6.decodeBlockT signed b = some (Bc6.decodeBlock signed b) ∧
+    (signed = false → ∀ px ∈ Bc6.decodeBlock signed b, ∀ v ∈ px, v < 0x7C00) ∧
+    ∀ prec, TrapBc6.decodeT signed prec b =
+      some ((Bc6.decodeBlock signed b).map (List.map (TrapBc6.conv signed prec))) :=
+  ⟨(TrapBc6.decodeBlockT_eq signed b).1, (TrapBc6.decodeBlockT_eq signed b).2,
+   fun prec => TrapBc6.decodeT_eq signed prec b⟩
+
+/-- non-vacuity: a two-region block (mode 01100-style code `…ec`) as `BC6H_UF16`, a one-region block (`…03`) as
+`BC6H_SF16` through block decode and conversion, a reserved code; and the mirror traps outside the proved ranges:
+`bc6h_uf16::n8(0x7C00)` (Inf) and `(0x8001)` (negative) fail their `debug_assert!`s, `sign_extend(64, 6)` fails its
+bit-pattern assert, `-(i32::MIN)` and `i32::MAX * 64` overflow -/
+example :
+    (TrapBc6.decodeBlockT false 0x00000000000000000123456789abcdec).map (·.take 3) =
+      some [[19328, 26520, 29899], [19328, 26520, 29899], [19328, 26086, 29403]] ∧
+    (TrapBc6.decodeBlockT true 0x0123456789abcdef0011223344556603).map (·.take 3) =
+      some [[37586, 9611, 33863], [3289, 8652, 60905], [1938, 8812, 56398]] ∧
+    (TrapBc6.decodeT true 1 0x0123456789abcdef0011223344556603).map (·.take 3) =
+      some [[0, 1419, 0], [19, 742, 0], [8, 822, 0]] ∧
+    (TrapBc6.decodeBlockT true 0xfedcba98765432100123456789abcd13).map (·.take 1) = some [[0, 0, 0]] ∧
+    TrapBc6.convT false 0 0x7C00 = none ∧ TrapBc6.convT false 0 0x8001 = none ∧
+    TrapBc6.signExtendT 64 6 = none ∧ TrapBc6.finishUnquantizeT (-2147483648) true = none ∧
+    TrapBc6.paletteEntryT 2147483647 1 0 false = none := by
   decide +kernel
 
 end Dds.C01
